@@ -73,6 +73,14 @@ CLAIMED = {
         "cycles, distinct, inline, named-metadata merging, ascending order) is checked by an in-process pointer-identity oracle; its theorem lives in the resolver model (C04).",
    note="Lean kernel + propext/Quot.sound; model LlirModel/MetaIDs.lean hand-written; identity part tied by oracle, not by theorem here.",
    technique="Lean 4 proof over a hand-written model + differential correspondence with the Go implementation", design="§4 C17"),
+ "C13": dict(
+   text="Lean proof over a protocol model (any number of concurrent print calls, every interleaving, never-printed and already-printed start states) that with the write "
+        "policy extracted from the current source (IDs written only when they change) every conflicting pair of accesses is ordered by happens-before; the lock/write "
+        "discipline (lock first, deferred unlock, guarded SetID, no other SetID caller, guarded cache writes) is regenerated from the source by go/ast and decided by the "
+        "kernel; kernel-checked witness that unconditional writes DO race. Supported by Go race-detector runs (8-16 goroutines, all corpus modules, both states). Partial: "
+        "the Go scheduler/memory model is not modelled; mixed-level printing of a never-printed module is a recorded finding.",
+   note="Lean kernel + propext/Quot.sound; protocol model hand-written; mutual exclusion of sync.Mutex and the Go memory model trusted; fact extractor trusted; race detector is supporting evidence only.",
+   technique="Lean 4 proof over a protocol model parameterised by source-extracted facts + race-detector correspondence runs", design="§4 C13"),
 }
 
 def main():
